@@ -185,6 +185,38 @@ theorem Lane_parked_writer_released (c : Cfg) (hc : c.single) (s : State) (hr : 
   · simp [State.th, hw]
   · simp [hqe]
 
+/-- A parked reader is released by the peer's next `put`, whatever its mode and item. -/
+theorem Lane_parked_reader_released (c : Cfg) (hc : c.single) (s : State) (hr : Reachable c s) (m : Mode) (x : Nat)
+    (hq : Quiescent c s) (hw : (s.th 1).pc = .wait) :
+    ∃ s', Core.run (step c) s [.call 0 m x, .acquire 0, .check 0, .act 0, .notify 0] = some s' ∧
+      (s'.th 1).notified = true ∧ (s'.th 1).pc = .wait ∧ s'.q = [x] := by
+  have hi := all_reachable c hc.1 hc.2 hr
+  obtain ⟨w, r, hthr, g⟩ := hi
+  have h0 : s.th 0 = w := by simp [State.th, hthr]
+  have h1 : s.th 1 = r := by simp [State.th, hthr]
+  obtain ⟨hown, hq0, hq1, hq2⟩ := hq
+  rw [h1] at hw hq1 hq2
+  rw [h0] at hq0 hq2
+  have hwi : w.pc = .idle := by rcases hq2 with h | h; · exact h
+                                · rw [hw] at h; simp at h
+  have hrn : r.notified = false ∧ s.q = [] := by
+    rcases hq1 with h | h
+    · rw [hw] at h; simp at h
+    · exact h.2
+  have hw0 : c.isWriter 0 = true := by simp [Cfg.isWriter, hc.1]
+  have hne : s.neW = [1] := by rw [g.ne]; simp [Thr.listed, hw, hrn.1]
+  have hnf : ∀ (o : Option Nat) (th : List Thr) (a b p g : List Nat),
+      isFull c { q := [], owner := o, thr := th, nfW := a, neW := b, putH := p, gotH := g } = false := by
+    intro o th a b p g; rw [isFull_false_iff]; intro h; simpa using h
+  refine ⟨{ s with q := [x], putH := s.putH ++ [x], neW := [], owner := some 0,
+                     thr := [{ pc := .leave .ok, mode := m, val := x, notified := false, fired := false },
+                             { r with notified := true }] },
+    ?_, ?_, ?_, ?_⟩
+  · simp [Core.run, step, hthr, hwi, setThr, hown, mustWait, hw0, hrn.2, hne, markNotified, hnf]
+  · simp [State.th]
+  · simp [State.th, hw]
+  · simp
+
 /-! ## Non-vacuity: concrete runs (kernel-evaluated) -/
 
 /-- `put 7` by one complete call -/
